@@ -51,7 +51,7 @@ ASSUMPTIONS = [
     "num_subproblems <= number of cells",
 ]
 REQUIRED = {"mpfa": 0.2, "mpsa": 0.15, "biot": 0.15, "mode-split": 0.2, "mode-partial": 0.15, "mode-update": 0.05,
-            "mode-update-api": 0.05,
+            "mode-update-api": 0.05, "update-stencil-proper": 0.02,
             "mode-inverter": 0.05, "dim2": 0.2, "dim3": 0.2, "split-shared-face": 0.1, "partial-proper": 0.1,
             "by-memory": 0.05, "python-inverter": 0.1,
             "active-cells-reindexed": 0.05, "face-in-3-subproblems": 0.02, "biot-het-alpha-reindexed": 0.02}
@@ -133,7 +133,7 @@ def _is_tilted(grid):
 def _spec(draw, tier):
     disc = draw(st.sampled_from(["mpfa", "mpfa", "mpfa", "mpsa", "mpsa", "biot", "biot", "biot"]))
     big = tier == "thorough"
-    modes = ["split", "split", "split", "partial", "partial", "update", "update-api", "inverter"]
+    modes = ["split", "split", "split", "partial", "partial", "update", "update", "update-api", "inverter"]
     if disc == "biot":
         # restricted discretisations are where the cell-wise Biot coefficients are re-indexed: keep them frequent
         modes = ["split", "split", "partial", "partial", "partial", "update", "update", "update-api", "update-api", "inverter"]
@@ -170,6 +170,9 @@ def _spec(draw, tier):
             par["alpha"] = {"a": draw(fv._f(0.2, 1.5)), "b": [draw(fv._f(0.2, 1.5)) for _ in range(3)],
                             "seed": draw(st.integers(0, 1000)), "amp": draw(fv._f(1.5, 4.0))}
         bc = draw(vbc_spec())
+    if mode in ("partial", "update", "update-api") and grid["dim"] == 2 and grid["kind"] in ("cart", "tri"):
+        # restricted discretisations need lattices on which the update stencil is a proper subset of the grid
+        grid["n"] = [max(int(k), 4) for k in grid["n"]]
     ncell = cells_estimate(grid)
     heavy = grid["dim"] == 3 and disc != "mpfa"  # 3-d vector problems: 30-50 ms per cell and subproblem
     kmax = min(8, ncell) if not heavy else min(4 if big else 3, ncell)
@@ -461,6 +464,8 @@ def check(spec):
             nontrivial = True
         # an update with unchanged parameters may change nothing (as in the repository's update tests): all rows of all
         # matrices, including Biot's cell-row matrices (see KNOWN: C14-biot-update-rewrites-incomplete-cell-rows)
+        if np.unique(data[pp.PARAMETERS][kw]["active_cells"]).size < g.num_cells:
+            labels.append("update-stencil-proper")  # overlap cells exist whose non-active faces must stay untouched
         _compare_all(ref, v, "update", skip)
         return {"labels": labels, "nontrivial": nontrivial}
 
